@@ -244,7 +244,12 @@ Loop:
 		case "F>": // Prompt (end of proposal block)
 			// Verify checksum
 			ourChecksum = (-ourChecksum) & 0xff
-			their, _ := strconv.ParseInt(line[3:], 16, 64)
+			their := int64(-1) // A missing or malformed checksum never matches
+			if len(line) > 3 {
+				if v, err := strconv.ParseInt(line[3:], 16, 64); err == nil {
+					their = v
+				}
+			}
 			if their != ourChecksum {
 				err = errors.New(fmt.Sprintf(`Checksum error (%d-%d)`, ourChecksum, their))
 				return
